@@ -23,6 +23,10 @@ mkdir -p "$SCRATCH/.fmlv-build" "$SCRATCH/.fmlv-work"
 for d in fml-debug fml-release engine-release engine-dev; do
   [ -d "$VERIF/.build/$d" ] && cp -a "$VERIF/.build/$d" "$SCRATCH/.fmlv-build/$d"
 done
+# private copy of the engine sources (without build output)
+mkdir -p "$SCRATCH/.fmlv-engine" && cp -a "$VERIF/engine/Cargo.toml" "$VERIF/engine/Cargo.lock" "$VERIF/engine/build.rs" "$VERIF/engine/src" "$SCRATCH/.fmlv-engine/" 2>/dev/null
+[ -d "$VERIF/engine/.cargo" ] && cp -a "$VERIF/engine/.cargo" "$SCRATCH/.fmlv-engine/"
+export FMLV_ENGINE_SRC="$SCRATCH/.fmlv-engine"
 export FML_ROOT="$SCRATCH" FMLV_BUILD="$SCRATCH/.fmlv-build" FMLV_WORK="$SCRATCH/.fmlv-work"
 export FMLV_SELFTEST=1 FMLV_EVIDENCE_DIR="$SCRATCH/.fmlv-work/evidence" FMLV_REPLAY_DIR="$SCRATCH/.fmlv-work/replays"
 rc_all=0
